@@ -9,12 +9,13 @@ class Expect(Exception):
     partial: content allowed after the raise in addition to 'unchanged' (T9), or None.
     anything: any outcome is tolerated (named tolerance zone in `zone`)."""
 
-    def __init__(self, classes, partial=None, zone=None, alt=None):
+    def __init__(self, classes, partial=None, zone=None, alt=None, anything=False):
         super().__init__(classes)
         self.classes = (classes,) if isinstance(classes, str) else tuple(classes)
         self.partial = partial
         self.zone = zone          # tolerance zone label, e.g. 'T3'
         self.alt = alt            # alternative acceptable non-raising result (bits, ret) or None
+        self.anything = anything  # unspecified: any outcome accepted (state invariants still apply)
 
 
 def window(start, end, L):
@@ -378,6 +379,8 @@ def apply_lsb0(m: str, op: str, a):
         return apply(m, op, a)
     if op == 'setitem_int':
         key, val = a
+        if isinstance(key, slice) and key.step == -1:
+            raise Expect('ValueError', zone='T7', anything=True)
         if isinstance(key, slice) and key.step in (None, 1):
             # the integer is a whole-value interpretation: written MSB-first into the mirrored slice
             idx = range(*key.indices(L))
